@@ -526,7 +526,7 @@ theorem revalidate_selector_true (rx : String → String → Bool) {f : Slots} {
     (revalidate rx .selector f d).1 = f := by
   obtain ⟨w, hw, hv⟩ := cfgOf_some hc
   unfold revalidate
-  simp only [hw, hv, ht]
+  simp only [cosFalsy, hw, hv, ht]
   simp only [Bool.not_true, Bool.and_false, Bool.false_eq_true, if_false]
   split <;> rfl
 
@@ -535,14 +535,14 @@ theorem revalidate_selector_false_ok (rx : String → String → Bool) {f f5 : S
     revalidate rx .selector f d = (f5, .ok) := by
   obtain ⟨w, hw, hv⟩ := cfgOf_some hc
   unfold revalidate
-  simp [hw, hv, ht, he]
+  simp [cosFalsy, hw, hv, ht, he]
 
 theorem revalidate_selector_false_err (rx : String → String → Bool) {f : Slots} {cos d : PyV} {e : ErrKind}
     (hc : cfgOf f .checkOnSet = some cos) (ht : cos.truthy = false) (he : ensureInObjects f d = .error e) :
     revalidate rx .selector f d = (f, .unsupported) := by
   obtain ⟨w, hw, hv⟩ := cfgOf_some hc
   unfold revalidate
-  simp [hw, hv, ht, he]
+  simp [cosFalsy, hw, hv, ht, he]
 
 
 
@@ -756,6 +756,584 @@ theorem held_eq_expected_selector (rx : String → String → Bool) (op name : N
           exact hrc.1
         simp [PyV.truthy, htc]
       · exact hrest f4 (fun _ _ => rfl) hso
+
+
+
+/-! ### validation: the slots it reads, monotone along `issubclass` -/
+
+
+/-- the slots `<Type>._validate` reads (besides the value itself) -/
+def relevant : PType → Slot → Bool
+  | .number, .allowNone | .number, .step | .number, .bounds | .number, .inclusiveBounds => true
+  | .integer, .allowNone | .integer, .step | .integer, .bounds | .integer, .inclusiveBounds => true
+  | .string, .allowNone | .string, .regex => true
+  | .tuple, .allowNone | .tuple, .length => true
+  | .list, .allowNone | .list, .bounds | .list, .itemType => true
+  | .selector, .checkOnSet | .selector, .allowNone | .selector, .objects => true
+  | _, _ => false
+
+theorem relevant_hasSlot {T : PType} {s : Slot} (h : relevant T s = true) : hasSlot T s = true := by
+  cases T <;> cases s <;> simp_all [relevant, hasSlot]
+
+theorem relevant_validated {T : PType} {s : Slot} (h : relevant T s = true) : nonValidated s = false := by
+  cases T <;> cases s <;> simp_all [relevant, nonValidated]
+
+theorem validate_congr (rx : String → String → Bool) (T : PType) {c c' : Cfg} (v : PyV)
+    (h : ∀ s, relevant T s = true → c s = c' s) : validate rx T c v = validate rx T c' v := by
+  cases T
+  · rfl
+  · simp only [validate, validateNumber, h .allowNone rfl, h .step rfl, h .bounds rfl, h .inclusiveBounds rfl]
+  · simp only [validate, validateNumber, h .allowNone rfl, h .step rfl, h .bounds rfl, h .inclusiveBounds rfl]
+  · simp only [validate, validateString, Cfg.get, h .allowNone rfl, h .regex rfl]
+  · simp only [validate, validateTuple, Cfg.get, h .allowNone rfl, h .length rfl]
+  · simp only [validate, validateList, Cfg.get, h .allowNone rfl, h .bounds rfl, h .itemType rfl]
+  · simp only [validate, validateSelector, h .allowNone rfl, h .checkOnSet rfl, h .objects rfl]
+
+theorem sub_hasSlot {T' T : PType} {s : Slot} (h : T'.sub T = true) (hs : hasSlot T s = true) :
+    hasSlot T' s = true := by
+  cases T' <;> cases T <;> simp_all [PType.sub] <;> cases s <;> simp_all [hasSlot]
+
+
+
+theorem isInt_isNumber {v : PyV} (h : v.isInt = true) : v.isNumber = true := by
+  cases v with
+  | atom a => cases a <;> simp_all [PyV.isInt, PyV.isNumber, Atom.num2]
+  | _ => simp [PyV.isInt] at h
+
+theorem numValueOk_mono {a : Bool} {v : PyV} (h : numValueOk true a v = true) : numValueOk false a v = true := by
+  simp only [numValueOk, if_true, Bool.or_eq_true, Bool.and_eq_true, Bool.false_eq_true, if_false] at h ⊢
+  exact h.elim Or.inl (fun x => Or.inr (isInt_isNumber x))
+
+theorem numStepOk_mono {v : PyV} (h : numStepOk true v = true) : numStepOk false v = true := by
+  simp only [numStepOk, if_true, Bool.or_eq_true, Bool.false_eq_true, if_false] at h ⊢
+  exact h.elim Or.inl (fun x => Or.inr (isInt_isNumber x))
+
+theorem validateNumber_mono {c : Cfg} {v : PyV} (h : validateNumber true c v = .ok ()) :
+    validateNumber false c v = .ok () := by
+  unfold validateNumber at h ⊢
+  split at h
+  · rename_i an step bounds incl h1 h2 h3 h4
+    split at h
+    · cases h
+    · rename_i hv
+      split at h
+      · cases h
+      · rename_i hst
+        have e1 := numValueOk_mono (a := an.truthy) (v := v) (by simpa using hv)
+        have e2 := numStepOk_mono (v := step) (by simpa using hst)
+        simp [e1, e2, h]
+  · cases h
+
+/-- a default a more specific Parameter type accepts is accepted by the more general one -/
+theorem validate_mono (rx : String → String → Bool) {T' T : PType} (hsub : T'.sub T = true) {c : Cfg} {v : PyV}
+    (h : validate rx T' c v = .ok ()) : validate rx T c v = .ok () := by
+  cases T' <;> cases T <;> simp_all [PType.sub, validate]
+  exact validateNumber_mono h
+
+
+
+/-! ### identity, overriding, and the nearest declaring class -/
+
+
+theorem Val.is_refl (a : Val) : a.is a = true := by simp [Val.is]
+
+theorem Val.is_v {a b : Val} (h : a.is b = true) : a.v = b.v := by
+  simp only [Val.is, Bool.and_eq_true, beq_iff_eq] at h
+  exact h.1
+
+theorem mem_filterMap_id {l : List (Option Val)} {v : Val} : v ∈ l.filterMap id ↔ some v ∈ l := by
+  simp [List.mem_filterMap]
+
+theorem distinct2_false {l : List (Option Val)} (h : distinct2 l = false) {o v : Val}
+    (ho : firstSome l = some o) (hv : some v ∈ l) : v.is o = true := by
+  unfold distinct2 at h
+  unfold firstSome at ho
+  have hv' := mem_filterMap_id.2 hv
+  cases hl : l.filterMap id with
+  | nil => simp [hl] at ho
+  | cons o' rest =>
+    simp only [hl, List.head?_cons, Option.some.injEq] at ho h hv'
+    subst ho
+    rcases List.mem_cons.1 hv' with e | e
+    · subst e; exact Val.is_refl _
+    · have := List.any_eq_false.1 h v e
+      simpa using this
+
+theorem distinct2_true_iff {l : List (Option Val)} :
+    distinct2 l = true ↔ ∃ o v, firstSome l = some o ∧ some v ∈ l ∧ v.is o = false := by
+  constructor
+  · intro h
+    unfold distinct2 at h
+    cases hl : l.filterMap id with
+    | nil => simp [hl] at h
+    | cons o rest =>
+      simp only [hl, List.any_eq_true, Bool.not_eq_true'] at h
+      obtain ⟨v, hv, hne⟩ := h
+      refine ⟨o, v, by simp [firstSome, hl], mem_filterMap_id.1 (by rw [hl]; exact List.mem_cons_of_mem _ hv), hne⟩
+  · rintro ⟨o, v, ho, hv, hne⟩
+    cases hd : distinct2 l with
+    | true => rfl
+    | false => rw [distinct2_false hd ho hv] at hne; cases hne
+
+/-- the Parameter of the nearest class of the MRO that declares it -/
+def firstDecl (supers : List (Option Param)) : Option Param := (supers.filterMap id).head?
+
+theorem nearest_of_firstDecl {supers : List (Option Param)} {h' : Param} {s : Slot} {v : Val}
+    (hf : firstDecl supers = some h') (hv : slotAt s (some h') = some v) : nearest supers s = some v := by
+  induction supers with
+  | nil => simp [firstDecl] at hf
+  | cons x rest ih =>
+    cases x with
+    | none =>
+      have : nearest (none :: rest) s = nearest rest s := by simp only [nearest, List.filterMap_cons, slotAt]
+      rw [this]
+      exact ih (by simpa [firstDecl] using hf)
+    | some p =>
+      simp only [firstDecl, List.filterMap_cons, id, List.head?_cons, Option.some.injEq] at hf
+      subst hf
+      simp [nearest, hv]
+
+theorem firstDecl_mem {supers : List (Option Param)} {h' : Param} (hf : firstDecl supers = some h') :
+    some h' ∈ supers := by
+  unfold firstDecl at hf
+  have : h' ∈ supers.filterMap id := by
+    cases hl : supers.filterMap id with
+    | nil => simp [hl] at hf
+    | cons a r => simp [hl] at hf; simp [hf]
+  simpa [List.mem_filterMap] using this
+
+theorem nearest_none_of_firstDecl_none {supers : List (Option Param)} (hf : firstDecl supers = none) (s : Slot) :
+    nearest supers s = none := by
+  induction supers with
+  | nil => rfl
+  | cons x rest ih =>
+    cases x with
+    | none =>
+      have : nearest (none :: rest) s = nearest rest s := by simp only [nearest, List.filterMap_cons, slotAt]
+      rw [this]; exact ih (by simpa [firstDecl] using hf)
+    | some p => simp [firstDecl] at hf
+
+/-- if a slot is not overridden, the value found has the value the nearest declaring class holds -/
+theorem no_override_slot {own : Slots} {supers : List (Option Param)} {h' : Param} {s : Slot} {v' : Val}
+    (hf : firstDecl supers = some h') (hv : slotAt s (some h') = some v')
+    (hd : distinct2 (offers own supers s) = false) :
+    ∃ o, firstSome (offers own supers s) = some o ∧ o.v = v'.v := by
+  have hmem : some v' ∈ offers own supers s := by
+    unfold offers
+    refine List.mem_cons_of_mem _ ?_
+    rw [← hv]
+    exact List.mem_map_of_mem (firstDecl_mem hf)
+  rw [firstSome_offers]
+  cases ho : own s with
+  | some o =>
+    refine ⟨o, rfl, ?_⟩
+    have hfs : firstSome (offers own supers s) = some o := by rw [firstSome_offers, ho]
+    exact (Val.is_v (distinct2_false hd hfs hmem)).symm
+  | none =>
+    exact ⟨v', nearest_of_firstDecl hf hv, rfl⟩
+
+
+
+/-! ### a merge that is not re-validated is valid anyway -/
+
+
+/-- every slot of the Parameter's type holds a value (true of every Parameter a class owns) -/
+def Filled (p : Param) : Prop := ∀ s, hasSlot p.ptype s = true → (p.slots s).isSome = true
+
+/-- a Parameter as a class may hold it: all slots filled and a non-None default
+that satisfies its own constraints and type -/
+def Good (rx : String → String → Bool) (p : Param) : Prop := Filled p ∧ defaultOk rx p = true
+
+/-- what a declaration offers on its own -/
+def ownFound (own : Param) : Slots := fun s => if hasSlot own.ptype s then own.slots s else none
+
+/-- The declaration's own constructor accepted its own default: declared alone,
+in a class without ancestors, its non-None default validates (constructor-time
+validation, C01's subject; `construct_ownValid` ties it to the modelled constructors). -/
+def OwnValid (rx : String → String → Bool) (own : Param) : Prop :=
+  ∀ op name f4 d, prepare own.ptype op name (ownFound own) = .ok f4 → f4 .default = some d →
+    d.v.isNone = false → validate rx own.ptype (cfgOf f4) d.v = .ok ()
+
+theorem mergeSearch_no_decl {own : Param} {supers : List (Option Param)} (h : firstDecl supers = none) :
+    (mergeSearch own supers).1 = ownFound own := by
+  funext s
+  rw [mergeSearch_fst, firstSome_offers, nearest_none_of_firstDecl_none h]
+  unfold ownFound
+  cases own.slots s <;> rfl
+
+theorem Sat_some {rx : String → String → Bool} {T : PType} {c : Cfg} {d : PyV} (hd : c .default = some d)
+    (h : Sat rx T c = true) : validate rx T c d = .ok () := by
+  unfold Sat at h
+  rw [hd] at h
+  simp only [] at h
+  split at h
+  · rename_i heq; exact heq
+  · cases h
+
+theorem anyOverridden_false {own : Slots} {supers : List (Option Param)} {slots : List Slot}
+    (h : anyOverridden own supers slots = false) {s : Slot} (hs : s ∈ slots) (hv : nonValidated s = false) :
+    distinct2 (offers own supers s) = false := by
+  have := List.any_eq_false.1 h s hs
+  simpa [hv] using this
+
+/-- Without a type change and without an overridden slot, every validated slot of the
+merge has the value the nearest declaring class holds. -/
+theorem no_override_static {own : Param} {supers : List (Option Param)} {h' : Param}
+    (hf : firstDecl supers = some h') (hfill : Filled h') (hsub : h'.ptype.sub own.ptype = true)
+    (hov : anyOverridden own.slots supers (slotsOf own.ptype) = false)
+    {s : Slot} (hs : hasSlot own.ptype s = true) (hv : nonValidated s = false) :
+    cfgOf (staticFill own.ptype (mergeSearch own supers).1) s = h'.cfg s ∧ (h'.cfg s).isSome = true := by
+  have hs' := sub_hasSlot hsub hs
+  have hsome := hfill s hs'
+  cases hv' : h'.slots s with
+  | none => simp [hv'] at hsome
+  | some v' =>
+    have hat : slotAt s (some h') = some v' := by simp [slotAt, hs', hv']
+    obtain ⟨o, ho, hov'⟩ := no_override_slot hf hat (anyOverridden_false hov (mem_slotsOf.2 hs) hv)
+    simp [cfgOf, staticFill, mergeSearch_fst, hs, ho, Param.cfg, hv', hov']
+
+
+
+theorem typeChange_false_sub {T : PType} {supers : List (Option Param)} (h : typeChange T supers = false)
+    {h' : Param} (hm : some h' ∈ supers) : h'.ptype.sub T = true := by
+  have := List.any_eq_false.1 h (some h') hm
+  simpa using this
+
+/-- Core of the property's last sentence: a merge that is *not* re-validated and has a
+non-None default still satisfies its constraints, because then it holds, slot by
+slot, what a valid Parameter already held. -/
+theorem not_revalidated_sat (rx : String → String → Bool) (op name : Nat) (own : Param)
+    (supers : List (Option Param))
+    (hown : OwnValid rx own) (hsup : ∀ h, some h ∈ supers → Good rx h)
+    (htc : typeChange own.ptype supers = false) (hov : (mergeSearch own supers).2 = false)
+    {f4 : Slots} {d : Val} (hp : prepare own.ptype op name (mergeSearch own supers).1 = .ok f4)
+    (hd : f4 .default = some d) (hnn : d.v.isNone = false) :
+    validate rx own.ptype (cfgOf f4) d.v = .ok () := by
+  cases hf : firstDecl supers with
+  | none =>
+    rw [mergeSearch_no_decl hf] at hp
+    exact hown op name f4 d hp hd hnn
+  | some h' =>
+    have hmem := firstDecl_mem hf
+    obtain ⟨hfill, hok⟩ := hsup h' hmem
+    have hsub := typeChange_false_sub htc hmem
+    rw [mergeSearch_snd own supers htc] at hov
+    have hst := fun s hs hv => no_override_static (s := s) hf hfill hsub hov hs hv
+    have hdv : cfgOf f4 .default = some d.v := by simp [cfgOf, hd]
+    -- it suffices that f4 agrees with h' on the slots validation reads and on the default
+    have finish : (∀ s, relevant own.ptype s = true → cfgOf f4 s = h'.cfg s) ∧ h'.cfg .default = some d.v →
+        validate rx own.ptype (cfgOf f4) d.v = .ok () := by
+      rintro ⟨hrel, hdef⟩
+      rw [validate_congr rx own.ptype d.v hrel]
+      apply validate_mono rx hsub
+      unfold defaultOk at hok
+      rw [hdef] at hok
+      simp only [hnn, Bool.false_or] at hok
+      exact Sat_some hdef hok
+    by_cases h1 : own.ptype = .tuple
+    · rw [h1] at hp
+      have hc := prepare_tuple_cfg hp
+      rw [← h1] at hc
+      apply finish
+      constructor
+      · intro s hs
+        rw [hc s]
+        have ⟨e1, e2⟩ := hst s (relevant_hasSlot hs) (relevant_validated hs)
+        by_cases hl : s = .length
+        · subst hl
+          simp only [if_true]
+          rw [e1]
+          cases hh : h'.cfg .length with
+          | none => simp [hh] at e2
+          | some v => rfl
+        · simp only [hl, if_false]; exact e1
+      · have ⟨e1, _⟩ := hst .default rfl rfl
+        rw [← e1, ← hdv, hc .default]
+        simp
+    · by_cases h2 : own.ptype = .selector
+      · rw [h2] at hp
+        obtain ⟨cos, dd, hc0, hd0, hall⟩ := prepare_selector_cfg rfl hp
+        rw [← h2] at hc0 hd0 hall
+        have ⟨ed, _⟩ := hst .default rfl rfl
+        have hdd : dd = d.v := by
+          have := hall .default
+          rw [hdv] at this
+          simp only [reduceCtorEq, if_false] at this
+          rw [hd0] at this
+          exact (Option.some.inj this).symm
+        have ⟨ec, ec2⟩ := hst .checkOnSet (by rw [h2]; rfl) rfl
+        have ⟨eo, eo2⟩ := hst .objects (by rw [h2]; rfl) rfl
+        have hcos : h'.cfg .checkOnSet = some cos := by
+          rw [← ec]
+          unfold selCos at hc0
+          cases hh : cfgOf (staticFill own.ptype (mergeSearch own supers).1) .checkOnSet with
+          | none => rw [ec] at hh; simp [hh] at ec2
+          | some v => rw [hh] at hc0; simpa using hc0
+        -- a Selector that does not check membership accepts everything
+        by_cases hct : cos.truthy = true
+        · apply finish
+          refine ⟨?_, by rw [← ed, hd0, hdd]⟩
+          intro s hs
+          rw [hall s]
+          have ⟨e1, _⟩ := hst s (relevant_hasSlot hs) (relevant_validated hs)
+          by_cases hso : s = .objects
+          · subst hso
+            have hne : ¬ (cos = .atom (.bool false) ∧ dd.isNone = false) := by
+              rintro ⟨hc, _⟩; rw [hc] at hct; cases hct
+            simp only [if_true, hne, if_false]
+            unfold selBase
+            rw [eo]
+            cases hh : h'.cfg .objects with
+            | none => simp [hh] at eo2
+            | some v => rfl
+          · by_cases hsc : s = .checkOnSet
+            · subst hsc; simp [hcos]
+            · simp only [hso, hsc, if_false]; exact e1
+        · have hct' : cos.truthy = false := by simpa using hct
+          have ⟨ea, ea2⟩ := hst .allowNone rfl rfl
+          have h4c : cfgOf f4 .checkOnSet = some cos := by rw [hall]; simp
+          have h4a : (cfgOf f4 .allowNone).isSome = true := by
+            rw [hall]; simp only [reduceCtorEq, if_false]; rw [ea]; exact ea2
+          have h4o : (cfgOf f4 .objects).isSome = true := by
+            rw [hall]; simp only [if_true]; split <;> rfl
+          rw [h2]
+          simp only [validate, validateSelector, h4c]
+          cases ha : cfgOf f4 .allowNone with
+          | none => simp [ha] at h4a
+          | some an =>
+            cases ho : cfgOf f4 .objects with
+            | none => simp [ho] at h4o
+            | some objs => simp [hct']
+      · rw [prepare_plain h1 h2] at hp
+        split at hp
+        · cases hp
+        · cases hp
+          apply finish
+          simp only [cfgOf_copyMutable] at hdv ⊢
+          constructor
+          · intro s hs
+            exact (hst s (relevant_hasSlot hs) (relevant_validated hs)).1
+          · have ⟨e1, _⟩ := hst .default rfl rfl
+            rw [← e1, hdv]
+
+
+
+/-! ### what a successful merge leaves behind -/
+
+
+theorem isSome_cfgOf (f : Slots) (s : Slot) : (cfgOf f s).isSome = (f s).isSome := by
+  simp [cfgOf]
+
+theorem typeDefault_static_plain {T : PType} (h1 : T ≠ .tuple) (h2 : T ≠ .selector) {s : Slot}
+    (hs : hasSlot T s = true) : ∃ v, typeDefault T s = .static v := by
+  cases T <;> cases s <;> simp_all [hasSlot, typeDefault]
+
+theorem staticFill_some_of_static {T : PType} {s : Slot} {v : Val} (hs : hasSlot T s = true)
+    (hd : typeDefault T s = .static v) (f : Slots) : (staticFill T f s).isSome = true := by
+  simp only [staticFill, hs, hd, if_true]
+  cases f s <;> rfl
+
+theorem missingKey_selector {found : Slots} (h : missingKey .selector found = false) :
+    (found .names).isSome = true := by
+  simp only [missingKey, slotsOf, slotOrder, List.filter, hasSlot, List.any, typeDefault] at h
+  cases hn : found .names with
+  | some v => rfl
+  | none => simp [hn] at h
+
+theorem prepare_filled {T : PType} {op name : Nat} {found f4 : Slots} (h : prepare T op name found = .ok f4)
+    {s : Slot} (hs : hasSlot T s = true) : (f4 s).isSome = true := by
+  rw [← isSome_cfgOf]
+  by_cases h1 : T = .tuple
+  · subst h1
+    rw [prepare_tuple_cfg h s]
+    by_cases hl : s = .length
+    · subst hl
+      -- the callable succeeded
+      simp only [prepare] at h
+      split at h
+      · cases h
+      · split at h
+        · rename_i e he
+          cases h
+        · rename_i f3 hf3
+          rw [updateState_plain (by decide)] at h
+          cases h
+          simp only [if_true]
+          have := runCallables_tuple_cfg hf3 .length
+          simp only [if_true, cfgOf_copyMutable] at this
+          rw [← this]
+          simp only [runCallables] at hf3
+          rw [isSome_cfgOf]
+          split at hf3
+          · rename_i v hv
+            cases hf3
+            simp [hv]
+          · split at hf3
+            · cases hf3; simp [Slots.set]
+            · cases hf3
+    · simp only [hl, if_false]
+      rw [isSome_cfgOf]
+      have : ∃ v, typeDefault .tuple s = .static v := by
+        cases s <;> simp_all [hasSlot, typeDefault]
+      obtain ⟨v, hv⟩ := this
+      exact staticFill_some_of_static hs hv _
+  · by_cases h2 : T = .selector
+    · subst h2
+      have hmk : missingKey .selector found = false := by
+        simp only [prepare] at h
+        split at h
+        · cases h
+        · rename_i hm; simpa using hm
+      obtain ⟨cos, dd, _, _, hall⟩ := prepare_selector_cfg rfl h
+      rw [hall s]
+      by_cases hso : s = .objects
+      · simp only [hso, if_true]; split <;> rfl
+      · by_cases hsc : s = .checkOnSet
+        · simp [hsc]
+        · simp only [hso, hsc, if_false]
+          rw [isSome_cfgOf]
+          by_cases hsn : s = .names
+          · subst hsn
+            simp only [staticFill]
+            have := missingKey_selector hmk
+            cases hn : found .names with
+            | some v => rfl
+            | none => simp [hn] at this
+          · have : ∃ v, typeDefault .selector s = .static v := by
+              cases s <;> simp_all [hasSlot, typeDefault]
+            obtain ⟨v, hv⟩ := this
+            exact staticFill_some_of_static hs hv _
+    · rw [prepare_plain h1 h2] at h
+      split at h
+      · cases h
+      · cases h
+        rw [cfgOf_copyMutable, isSome_cfgOf]
+        obtain ⟨v, hv⟩ := typeDefault_static_plain h1 h2 hs
+        exact staticFill_some_of_static hs hv _
+
+/-- re-validation touches no slot but a Selector's objects -/
+theorem revalidate_cfg_other (rx : String → String → Bool) (T : PType) (f : Slots) (d : PyV) {s : Slot}
+    (hs : s ≠ .objects) : cfgOf (revalidate rx T f d).1 s = cfgOf f s := by
+  unfold revalidate
+  split
+  · cases he : ensureInObjects f d with
+    | ok f5 => simp only []; rw [ensureInObjects_cfg he]; simp [hs]
+    | error e => rfl
+  · split <;> rfl
+
+theorem revalidate_isSome (rx : String → String → Bool) (T : PType) (f : Slots) (d : PyV) (s : Slot) :
+    ((revalidate rx T f d).1 s).isSome = (f s).isSome := by
+  rw [← isSome_cfgOf, ← isSome_cfgOf]
+  by_cases hs : s = .objects
+  · subst hs
+    unfold revalidate
+    split
+    · cases he : ensureInObjects f d with
+      | ok f5 => simp only []; rw [ensureInObjects_cfg he]; simp
+      | error e => rfl
+    · split <;> rfl
+  · rw [revalidate_cfg_other rx T f d hs]
+
+/-- a successful re-validation means the (possibly extended) configuration validates -/
+theorem revalidate_ok_validate (rx : String → String → Bool) (T : PType) (f : Slots) (d : PyV)
+    (hfill : ∀ s, hasSlot T s = true → (f s).isSome = true)
+    (h : (revalidate rx T f d).2 = .ok) : validate rx T (cfgOf (revalidate rx T f d).1) d = .ok () := by
+  unfold revalidate at h ⊢
+  split at h
+  · rename_i hcond
+    simp only [Bool.and_eq_true, beq_iff_eq] at hcond
+    obtain ⟨hT, hc⟩ := hcond
+    subst hT
+    cases he : ensureInObjects f d with
+    | error e => simp [he] at h
+    | ok f5 =>
+      simp only [beq_self_eq_true, Bool.true_and, hc, if_true]
+      have h5 := fun t => ensureInObjects_cfg he t
+      have hc5 := h5 .checkOnSet
+      simp only [reduceCtorEq, if_false] at hc5
+      have ha5 := h5 .allowNone
+      simp only [reduceCtorEq, if_false] at ha5
+      have ho5 := h5 .objects
+      simp only [if_true] at ho5
+      have s1 := hfill .checkOnSet rfl
+      have s2 := hfill .allowNone rfl
+      have s3 := hfill .objects rfl
+      unfold cosFalsy at hc
+      cases hcf : f .checkOnSet with
+      | none => simp [hcf] at s1
+      | some c =>
+        simp only [hcf] at hc
+        cases haf : f .allowNone with
+        | none => simp [haf] at s2
+        | some a =>
+          cases hof : f .objects with
+          | none => simp [hof] at s3
+          | some o =>
+            simp only [validate, validateSelector, hc5, ha5, ho5]
+            simp only [cfgOf, hcf, haf, hof, Option.map, hc, if_true]
+  · rename_i hcond
+    simp only [hcond, Bool.false_eq_true, if_false]
+    split at h
+    · rename_i u hv
+      simp only [hv]
+    · cases h
+    · cases h
+
+
+
+
+theorem Sat_of_validate {rx : String → String → Bool} {T : PType} {c : Cfg} {d : PyV} (hd : c .default = some d)
+    (h : validate rx T c d = .ok ()) : Sat rx T c = true := by
+  unfold Sat
+  rw [hd]
+  simp only [h]
+
+theorem reached_of_ok {o : Outcome} (h : o = .ok) : o.reached = true := by subst h; rfl
+
+/-- A successful merge below valid Parameters leaves a valid Parameter. -/
+theorem inherit_ok_good (rx : String → String → Bool) (op name : Nat) (own : Param) (supers : List (Option Param))
+    (hown : OwnValid rx own) (hsup : ∀ h, some h ∈ supers → Good rx h)
+    (hok : (inherit rx op name own supers).outcome = .ok) :
+    Good rx (inherit rx op name own supers).param := by
+  obtain ⟨f4, d, hp, hd, _, hslots, hout⟩ := inherit_reached (reached_of_ok hok)
+  have hfill4 : ∀ s, hasSlot own.ptype s = true → (f4 s).isSome = true := fun s hs => prepare_filled hp hs
+  have hpt := inherit_ptype rx op name own supers
+  constructor
+  · intro s hs
+    rw [hpt] at hs
+    rw [hslots]
+    split
+    · rw [revalidate_isSome]; exact hfill4 s hs
+    · exact hfill4 s hs
+  · have hdef : (inherit rx op name own supers).param.cfg .default = some d.v := by
+      show cfgOf (inherit rx op name own supers).param.slots .default = some d.v
+      rw [hslots]
+      split
+      · rw [revalidate_cfg_other rx _ _ _ (by decide)]; simp [cfgOf, hd]
+      · simp [cfgOf, hd]
+    unfold defaultOk
+    rw [hdef]
+    simp only []
+    cases hnn : d.v.isNone with
+    | true => rfl
+    | false =>
+      simp only [Bool.false_or]
+      apply Sat_of_validate hdef
+      rw [hpt]
+      show validate rx own.ptype (cfgOf (inherit rx op name own supers).param.slots) d.v = .ok ()
+      rw [hslots]
+      by_cases hrc : revalCond own supers d.v = true
+      · simp only [hrc, if_true] at hout ⊢
+        rw [hok] at hout
+        exact revalidate_ok_validate rx own.ptype f4 d.v hfill4 hout.symm
+      · simp only [hrc, Bool.false_eq_true, if_false]
+        simp only [revalCond, Bool.or_eq_true, Bool.and_eq_true, not_or, not_and, Bool.not_eq_true, hnn,
+          Bool.not_false] at hrc
+        have hov : (mergeSearch own supers).2 = false := by
+          cases h : (mergeSearch own supers).2 with
+          | false => rfl
+          | true => exact absurd trivial (hrc.2 h)
+        exact not_revalidated_sat rx op name own supers hown hsup hrc.1 hov hp hd hnn
 
 
 end ParamVerif.Inherit
